@@ -29,11 +29,12 @@ type Up4FaultParams struct {
 	AgentBin string `json:"agentBin"`
 	N4Addr   string `json:"n4"`
 	Seed     int64  `json:"seed"`
-	Shapes   int    `json:"shapes"`  // session shapes; for each: every request kind x every position k of the failing write
-	Random   int    `json:"random"`  // afterwards: random histories with this many steps, a fault in every third request
-	Crowd    int    `json:"crowd"`   // sessions kept live in the background (they hold identifiers a wrong release would hand out again)
-	Drain    int    `json:"drain"`   // at the end: establish this many sessions at once so that recycled identifiers come round
-	ModeMix  int    `json:"modeMix"` // 0: alternate rpc / update faults, 1: rpc only, 2: update only
+	FwdFirst bool   `json:"fwdFirst"` // the target session of the first shape forwards downlink traffic (it is the only user of a tunnel peer)
+	Shapes   int    `json:"shapes"`   // session shapes; for each: every request kind x every position k of the failing write
+	Random   int    `json:"random"`   // afterwards: random histories with this many steps, a fault in every third request
+	Crowd    int    `json:"crowd"`    // sessions kept live in the background (they hold identifiers a wrong release would hand out again)
+	Drain    int    `json:"drain"`    // at the end: establish this many sessions at once so that recycled identifiers come round
+	ModeMix  int    `json:"modeMix"`  // 0: alternate rpc / update faults, 1: rpc only, 2: update only
 	// Crowded: the background sessions all have a session QER and one flow (they hold many session-meter cells), and only
 	// establishments are faulted: an application-meter cell released into the session-meter pool meets a live holder
 	Crowded bool `json:"crowded"`
@@ -130,16 +131,22 @@ func e2eUp4FaultWorker(args []string) error {
 		mod  int
 	}
 
-	kinds := []kind{{"estab", -1}, {"far", e2e.ModFar}, {"qer", e2e.ModQer}, {"pdr", e2e.ModPdr}, {"remove", e2e.ModRemove}, {"add", e2e.ModAdd}, {"del", -2}}
+	kinds := []kind{{"estab", -1}, {"far", e2e.ModFar}, {"farsame", e2e.ModFarSame}, {"qer", e2e.ModQer}, {"pdr", e2e.ModPdr}, {"remove", e2e.ModRemove}, {"add", e2e.ModAdd}, {"del", -2}}
 	if p.Crowded {
 		kinds = kinds[:1]
 	}
 
 	// do performs the request of the given kind on a session of shape `shape` (established first without fault unless the
 	// request IS the establishment); fault = nil measures the number of Write RPCs the request makes
+	forceFwd := false
 	do := func(shape int64, kd kind, fault *e2e.P4FaultPlan) int {
 		g.Reseed(shape)
 		g.FreshGnbs() // the target session is the only user of its tunnel peer (the crowd uses other gNBs)
+		g.ForceFwd = forceFwd || kd.mod == e2e.ModFarSame
+		oneFlow := g.OneFlow
+		g.OneFlow = oneFlow || kd.mod == e2e.ModFarSame // one downlink FAR: the session's only reference to its tunnel peer
+
+		defer func() { g.ForceFwd, g.OneFlow = false, oneFlow }()
 
 		if kd.mod == -1 {
 			w.P4Fault = fault
@@ -169,10 +176,23 @@ func e2eUp4FaultWorker(args []string) error {
 
 		n := w.LastRpcs
 
-		// a probe session of another association right after the fault: it is given identifiers from the pools
+		// a probe session of another association right after the fault: it is given identifiers from the pools (after an
+		// Update FAR that kept the gNB it forwards to that same gNB: it shares the target's tunnel peer)
 		g.Reseed(shape + 2)
+
+		if kd.mod == e2e.ModFarSame {
+			g.PinGnbOf(s)
+		}
+
 		g.Establish("p2")
 		probe := g.Last()
+
+		// the probe goes first in half of the cases (it may have shared a tunnel peer or an application with the target
+		// session: what it releases must leave the target's identifiers alone; a heartbeat step records the state between)
+		if probe.Live() && probe != s && (nfault%2 == 1 || kd.mod == e2e.ModFarSame) {
+			g.Delete(probe)
+			w.Heartbeat("p1")
+		}
 
 		if s.Live() {
 			g.Delete(s)
@@ -203,6 +223,7 @@ func e2eUp4FaultWorker(args []string) error {
 
 	for sh := 0; sh < p.Shapes && !w.Died; sh++ {
 		shape := rng.Int63()
+		forceFwd = p.FwdFirst && sh == 0
 
 		for _, kd := range kinds {
 			n := do(shape, kd, nil)
@@ -285,15 +306,47 @@ func C15(c *core.Ctx) {
 		apalacheRefCounted(c)
 	}
 
-	res := runE2EShards(c, "e2e-up4-faults", shards, "TraceE2E_C15.cfg", func(i int) interface{} {
+	// GEN: the QoS scripts of C09 (spec/Up4QosScript.tla: one session whose QERs change role - session-level QER below / above
+	// the flows' rates, flow QER symmetric / asymmetric / above the session's, flows added and removed, deletion) are
+	// replayed under the C15 configuration as well: which meter pool a cell goes back to depends on those role changes
+	qosShards := 3
+	if c.Thorough() {
+		qosShards = 6
+	}
+
+	scripts := filepath.Join(c.Scratch, "qos-scripts.json")
+
+	if c.ReplayDir == "" {
+		gr, err := c.RunTLC(core.TLCRun{Module: "Up4QosScript", Cfg: "MCUp4QosScript.cfg", Workers: 1, HeapMB: 1024, Timeout: 5 * time.Minute, Label: "gen"})
+		if err != nil || !gr.OK() {
+			c.Inconclusive("GEN: TLC did not enumerate the scripts of Up4QosScript")
+			qosShards = 0
+		} else if n, err := writeScripts(gr.OutputPath, scripts); err != nil || n == 0 {
+			c.Inconclusive("GEN: no scripts in TLC's output: %v", err)
+			qosShards = 0
+		} else {
+			c.AddCount("gen_scripts", int64(n))
+			c.AddTLC("gen", gr)
+		}
+	} else {
+		qosShards = 0
+	}
+
+	res := runE2EMixed(c, shards+qosShards, "TraceE2E_C15.cfg", func(i int) (string, interface{}) {
 		d, tr := shardDir(c, i)
+
+		if i >= shards {
+			return "e2e-up4-qos", Up4QosParams{Dir: d, Trace: tr, AgentBin: filepath.Join(c.BinDir, "verif-agent"), N4Addr: n4For(i), Seed: c.Seed*1000 + 760 + int64(i),
+				Scripts: scripts, Shard: i - shards, Of: qosShards}
+		}
+
 		pr := Up4FaultParams{Dir: d, Trace: tr, AgentBin: filepath.Join(c.BinDir, "verif-agent"), N4Addr: n4For(i), Seed: c.Seed*1000 + 700 + int64(i),
-			Shapes: shapes, Random: random, Crowd: crowd, Drain: drain, ModeMix: i % 3}
+			Shapes: shapes, Random: random, Crowd: crowd, Drain: drain, ModeMix: i % 3, FwdFirst: i%2 == 0}
 		if i%6 == 5 { // the crowded shard
 			pr.Crowded, pr.Crowd, pr.Shapes, pr.Random, pr.Drain = true, crowded, 3, 0, 0
 		}
 
-		return pr
+		return "e2e-up4-faults", pr
 	})
 	judgeE2E(c, res, map[string]bool{"InEnvelope": true, "Up4Envelope": true})
 }
